@@ -4,7 +4,7 @@ import ast
 from ..model import AnalysisError, need, call_name, const_str, unparse
 from ..cfg import cfg_of, calls_at, reaching_defs
 from ..pathfacts import literals
-from .common import (rules, deriv, attr_calls, cfg_node_of, is_selector_call, all_funcs_of, stmt_text, node_effects)
+from .common import (rules, deriv, calls_local_helper, ctext, ctext_ref, attr_calls, cfg_node_of, is_selector_call, all_funcs_of, stmt_text, node_effects)
 from .gregory import ballot_loops, _block_of
 from .loops import _atoms, _tokens
 
@@ -238,8 +238,9 @@ def r11_keep_factors(ctx):
             dn = cfg_node_of(ctx, f, call)
             zs = {x for x in cfg.stmt_nodes() if x.kind == 'stmt' and isinstance(x.ast, ast.Assign)
                   and unparse(x.ast.targets[0]) == '%s.kf' % X and ctx.canon(x.ast.value, f) == 'E.V0'}
-            dist = {x for x in cfg.stmt_nodes() if any(isinstance(c.func, ast.Name) and c.func.id in ('distributeVotes', 'iterate', 'iterateStep')
-                                                       for c in calls_at(x))}
+            # the next distribution: a call of a rule-local helper that (transitively) accumulates tallies
+            dist = {x for x in cfg.stmt_nodes() if calls_local_helper(
+                ctx, f, x, lambda n_, g_: isinstance(n_, ast.AugAssign) and isinstance(n_.target, ast.Attribute) and n_.target.attr == 'vote')}
             stops = {head, cfg.exit} | dist
             r = cfg.reach([dn], avoid=zs)
             ok = bool(zs) and not (r & stops)
@@ -272,7 +273,7 @@ def r12_iteration_exits(ctx):
         atoms = _atoms(ctx, f)
         # omega = 1 / 10**omega10
         om = [s for s in f.own_nodes() if isinstance(s, ast.Assign) and unparse(s.targets[0]) == 'self.omega']
-        okom = len(om) == 1 and unparse(om[0].value).replace('E.V(1)', 'V1').replace('E.V(', 'V(') == 'V1 / V(10 ** self.omega10)'
+        okom = len(om) == 1 and ctext(ctx, f, om[0].value) in (ctext_ref('E.V1 / E.V(10 ** self.omega10)'), ctext_ref('E.V(1) / E.V(10 ** self.omega10)'))
         ctx.check(okom, R, om[0] if om else f.node, f, 'omega is 1/10^omega10 in the count\'s arithmetic', 'self.omega = V1 / V(10**self.omega10)',
                   'omega is defined as `%s`' % (unparse(om[0].value) if om else None))
         it = ri.helper(ctx, 'iterate')
@@ -307,12 +308,15 @@ def r12_iteration_exits(ctx):
         # E.surplus is the sum over the elected of (vote - quota), computed after the election step
         ss = [s for s in it.own_nodes() if isinstance(s, ast.Assign) and ctx.canon(s.targets[0], it) == 'E.surplus'
               and not ctx.canon(s.value, it) == 'E.V0']
-        oks = len(ss) == 1 and unparse(ss[0].value).replace(' ', '') in ('sum([c.vote-E.quotaforcinC.elected()],V0)',)
+        oks = len(ss) == 1 and ctext(ctx, it, ss[0].value) in (ctext_ref('sum([c.vote - E.quota for c in E.C.elected()], E.V0)'),
+                                                              ctext_ref('sum((c.vote - E.quota for c in E.C.elected()), E.V0)'))
         ctx.check(oks, R, ss[0] if ss else it.node, it, 'the total surplus is the sum of (tally - quota) over the elected candidates',
                   'E.surplus = sum([c.vote-E.quota for c in C.elected()], V0)', 'total surplus is computed as `%s`' % (unparse(ss[0].value) if ss else None))
         # votes and quota are recomputed after every distribution, before the election test
         vs_ = [s for s in it.own_nodes() if isinstance(s, ast.Assign) and ctx.canon(s.targets[0], it) == 'E.votes']
-        okv = len(vs_) == 1 and unparse(vs_[0].value).replace(' ', '') == 'sum([c.voteforcinC.hopeful()+C.elected()],V0)'
+        okv = len(vs_) == 1 and ctext(ctx, it, vs_[0].value) in (ctext_ref('sum([c.vote for c in E.C.hopeful() + E.C.elected()], E.V0)'),
+                                                                ctext_ref('sum([c.vote for c in E.C.elected() + E.C.hopeful()], E.V0)'),
+                                                                ctext_ref('sum((c.vote for c in E.C.hopeful() + E.C.elected()), E.V0)'))
         ctx.check(okv, R, vs_[0] if vs_ else it.node, it, 'the votes used for the quota are re-summed from the continuing tallies after every distribution',
                   'E.votes = sum([c.vote for c in C.hopeful() + C.elected()], V0)', 'E.votes is `%s`' % (unparse(vs_[0].value) if vs_ else None))
         qs = [s for s in it.own_nodes() if isinstance(s, ast.Assign) and ctx.canon(s.targets[0], it) == 'E.quota']
